@@ -19,7 +19,7 @@ LEVEL_TEXT = (
     "deliver to each underlying parameter the value addressed by its current name and return results under the current output names. Plus "
     "whole-graph alpha-renaming of every small DAG program."
 )
-LEVEL_NOTE = "model = dict current->original with simultaneous substitution per batch (mc/props/c06.py:Model); name pool = current names + 2 fresh names"
+LEVEL_NOTE = 'model = dict current->original with simultaneous substitution per batch (mc/props/c06.py:Model); name pool = current names + 2 fresh names; also: ancestors re-checked after relatives were derived, execution under both runners, enclosing-graph bindings of renamed inputs, node vs renamed relative on one cache'
 RULE = "node kinds x all histories of K batches (quick K=2, thorough K=3; K=4 for 2 names); distinct_nontrivial = distinct (kind, history) with at least one re-used name (swap / rotation / chain)"
 ASSUMPTIONS = ["identity renames (a->a) are not in the alphabet", "batch ids only need to be increasing (module-level counter)"]
 
